@@ -21,15 +21,6 @@ theorem dot_eq_spec (xs cs : List Int) : Flac.dot xs cs = Spec.dot xs cs := by
     | nil => rfl
     | cons c cs => simp [Flac.dot, Spec.dot, ih]
 
-theorem wrapS32_spec (x : Int) :
-    (∃ k : Int, wrapS 32 x = x + k * 4294967296) ∧ -2147483648 ≤ wrapS 32 x ∧ wrapS 32 x < 2147483648 := by
-  simp only [wrapS]
-  have h : (2 : Int) ^ 32 = 4294967296 := by decide
-  simp only [h]
-  split
-  · exact ⟨⟨-(x / 4294967296), by omega⟩, by omega, by omega⟩
-  · exact ⟨⟨-(x / 4294967296) - 1, by omega⟩, by omega, by omega⟩
-
 /-- two's-complement wrap is additive: wrapping a summand first changes nothing -/
 theorem wrapS32_add_wrap (r t : Int) : wrapS 32 (r + wrapS 32 t) = wrapS 32 (r + t) := by
   obtain ⟨⟨k1, h1⟩, _, _⟩ := wrapS32_spec t
